@@ -1313,19 +1313,27 @@ impl Drop for Debugger {
 }
 
 /// Read N bytes from `PID` process.
+///
+/// Memory is fetched with word-sized `PTRACE_PEEKDATA` requests at word-aligned addresses:
+/// an aligned word never crosses a page boundary, so the read fails only if one of the
+/// requested bytes is not mapped (an unaligned peek for a partial tail may run into an
+/// unmapped page although all requested bytes are readable).
 pub fn read_memory_by_pid(pid: Pid, addr: usize, read_n: usize) -> Result<Vec<u8>, nix::Error> {
-    let mut read_reminder = read_n as isize;
     let mut result = Vec::with_capacity(read_n);
+    if read_n == 0 {
+        return Ok(result);
+    }
 
-    let single_read_size = mem::size_of::<c_long>();
-
-    let mut addr = addr as *mut c_long;
-    while read_reminder > 0 {
-        let value = sys::ptrace::read(pid, addr as *mut c_void)?;
-        result.extend(value.to_ne_bytes().into_iter().take(read_reminder as usize));
-
-        read_reminder -= single_read_size as isize;
-        addr = unsafe { addr.offset(1) };
+    let word_size = mem::size_of::<c_long>();
+    let end = addr + read_n;
+    let mut word_addr = addr - addr % word_size;
+    while word_addr < end {
+        let value = sys::ptrace::read(pid, word_addr as *mut c_void)?;
+        let bytes = value.to_ne_bytes();
+        let from = addr.max(word_addr) - word_addr;
+        let to = end.min(word_addr + word_size) - word_addr;
+        result.extend_from_slice(&bytes[from..to]);
+        word_addr += word_size;
     }
 
     debug_assert!(result.len() == read_n);
